@@ -56,14 +56,15 @@ Definition evict_ok (T T' : list kc) (n : N) (vs : list N) (c : N) : Prop :=
   /\ Permutation T' (without vs T)                 (* stops tracking exactly the victims *)
   /\ (n <= total T -> n <= c).                     (* frees enough whenever possible *)
 
-(* evict_ok minus "frees enough whenever possible" (Arc: F-20, TinyLfu: F-21) *)
+(* evict_ok minus "frees enough whenever possible" (used to state refutations that do
+   not depend on sufficiency; every built-in policy now satisfies [evict_ok]) *)
 Definition evict_nosuff (T T' : list kc) (n : N) (vs : list N) (c : N) : Prop :=
   evict_core T T' vs c.
 
 Definition admit_full (T T' : list kc) (k c : N) : Prop :=
   Permutation T' ((k, c) :: rm k T).
 
-(* what Fifo/Clock/Slru do: a fresh key is tracked with its cost; a key already
+(* what Fifo does (F-19-fifo): a fresh key is tracked with its cost; a key already
    tracked keeps its *old* cost (no duplicate). *)
 Definition admit_keep_old (T T' : list kc) (k c : N) : Prop :=
   match lookup k T with
@@ -71,7 +72,7 @@ Definition admit_keep_old (T T' : list kc) (k c : N) : Prop :=
   | Some _ => Permutation T' T
   end.
 
-(* what Arc does (F-20): the admission may silently stop tracking at most one
+(* what Arc does (F-20-arc-admit): the admission may silently stop tracking at most one
    *other* key (it is moved to a ghost list, not nominated as a victim). *)
 Definition admit_demote (T T' : list kc) (k c : N) : Prop :=
   exists D : list N,
